@@ -331,6 +331,36 @@ func isSyncType(t types.Type) bool {
 	return false
 }
 
+// syncObjKind classifies a method call on an internally synchronised object: "" = not one,
+// "R" read-like, "W" write-like. Mutex / RWMutex / Once are modelled by type replacement and
+// WaitGroup / Cond are left alone.
+func syncObjKind(recv types.Type, method string) string {
+	t := recv
+	if p, ok := t.(*types.Pointer); ok {
+		t = p.Elem()
+	}
+	n, ok := t.(*types.Named)
+	if !ok || n.Obj().Pkg() == nil {
+		return ""
+	}
+	switch n.Obj().Pkg().Path() {
+	case "sync":
+		switch n.Obj().Name() {
+		case "Map", "Pool":
+		default:
+			return ""
+		}
+	case "sync/atomic":
+	default:
+		return ""
+	}
+	switch method {
+	case "Load", "Range":
+		return "R"
+	}
+	return "W"
+}
+
 var everWritten = map[types.Object]bool{}
 
 // rootVar returns the package-level variable an lvalue expression is rooted at (x, x.f, x[i].g,
@@ -473,6 +503,13 @@ func (rw *rewriter) file(f *ast.File) {
 	skip := map[ast.Node]bool{}
 	writes := map[ast.Expr]bool{}
 	inSelectComm := map[ast.Node]bool{}
+	type syncAct struct {
+		kind string // "R" | "W"
+		ptr  bool   // receiver expression is already a pointer
+		site ast.Expr
+	}
+	syncCalls := map[*ast.CallExpr]syncAct{} // method call on a sync.Map / sync.Pool / atomic value
+	atomicFns := map[*ast.CallExpr]syncAct{} // atomic.AddInt64(&x, ...) style function calls
 
 	unparen := func(e ast.Expr) ast.Expr {
 		for {
@@ -521,6 +558,30 @@ func (rw *rewriter) file(f *ast.File) {
 			if id, ok := x.Fun.(*ast.Ident); ok && len(x.Args) > 0 {
 				if _, isBuiltin := info.Uses[id].(*types.Builtin); isBuiltin && (id.Name == "delete" || id.Name == "clear") {
 					writes[unparen(x.Args[0])] = true
+				}
+			}
+			if sel, ok := x.Fun.(*ast.SelectorExpr); ok {
+				if s := info.Selections[sel]; s != nil && s.Kind() == types.MethodVal {
+					if tv, ok := info.Types[sel.X]; ok {
+						if k := syncObjKind(tv.Type, sel.Sel.Name); k != "" {
+							_, isPtr := tv.Type.Underlying().(*types.Pointer)
+							if isPtr || tv.Addressable() {
+								syncCalls[x] = syncAct{k, isPtr, rw.site(sel)}
+							}
+						}
+					}
+				} else if id, ok := sel.X.(*ast.Ident); ok && len(x.Args) > 0 {
+					if pn, isPkg := info.Uses[id].(*types.PkgName); isPkg && pn.Imported().Path() == "sync/atomic" {
+						if tv, ok := info.Types[x.Args[0]]; ok {
+							if _, isPtr := tv.Type.Underlying().(*types.Pointer); isPtr {
+								k := "W"
+								if strings.HasPrefix(sel.Sel.Name, "Load") {
+									k = "R"
+								}
+								atomicFns[x] = syncAct{k, true, rw.site(sel)}
+							}
+						}
+					}
 				}
 			}
 		case *ast.CommClause:
@@ -633,10 +694,10 @@ func (rw *rewriter) file(f *ast.File) {
 				c.Replace(rw.wrap(fn, x, x))
 				return true
 			}
-			// sync.Mutex / sync.RWMutex type names
+			// sync.Mutex / sync.RWMutex / sync.Once type names
 			if id, ok := x.X.(*ast.Ident); ok {
 				if pn, isPkg := info.Uses[id].(*types.PkgName); isPkg && pn.Imported().Path() == "sync" {
-					if x.Sel.Name == "Mutex" || x.Sel.Name == "RWMutex" {
+					if x.Sel.Name == "Mutex" || x.Sel.Name == "RWMutex" || x.Sel.Name == "Once" {
 						rw.stats["mutex"]++
 						rw.changed = true
 						c.Replace(shimSel(x.Sel.Name))
@@ -723,6 +784,21 @@ func (rw *rewriter) file(f *ast.File) {
 						x.Fun = shimSel("Exit")
 					}
 				}
+			}
+			if a, ok := syncCalls[x]; ok {
+				sel := x.Fun.(*ast.SelectorExpr)
+				recv := sel.X
+				if !a.ptr {
+					recv = &ast.UnaryExpr{Op: token.AND, X: recv}
+				}
+				sel.X = &ast.CallExpr{Fun: shimSel("Sync" + a.kind), Args: []ast.Expr{recv, a.site}}
+				rw.stats["sync"+a.kind]++
+				rw.changed = true
+			}
+			if a, ok := atomicFns[x]; ok {
+				x.Args[0] = &ast.CallExpr{Fun: shimSel("Sync" + a.kind), Args: []ast.Expr{x.Args[0], a.site}}
+				rw.stats["sync"+a.kind]++
+				rw.changed = true
 			}
 			if id, ok := x.Fun.(*ast.Ident); ok && id.Name == "close" && len(x.Args) == 1 {
 				if _, isBuiltin := info.Uses[id].(*types.Builtin); isBuiltin && rw.bidiChan(x.Args[0]) {
